@@ -455,7 +455,8 @@ def special_cases():
     out = []
     for name, clause, ok in SPECIAL:
         out.append({"id": "sp_" + name, "special": name,
-                    "impl": ["L\tsp_%s_l\tuser\t%s" % (name, clause), "Q\tsp_%s\t2\tc24s_%s(R)." % (name, name)],
+                    "impl": ["Q\tsp_%s_u\t1\tuse_module(library(lists))." % name,
+                             "L\tsp_%s_l\tuser\t%s" % (name, clause), "Q\tsp_%s\t2\tc24s_%s(R)." % (name, name)],
                     "prolog": [clause]})
     return out
 
@@ -544,14 +545,27 @@ def slim(c):
     return {k: c[k] for k in ("id", "nodes", "a", "b", "k", "seed", "kind", "prolog") if k in c}
 
 
-def run_with_retry(cases):
-    impl, model = diff.run_cases(cases, impl_env=IMPL_ENV)
-    flaky = [c for c in cases if any(transient(impl.get(core.line_id(l), "missing")) or
-                                     impl.get(core.line_id(l), "").startswith("panic") for l in c["impl"])]
+def needs_rerun(r):
+    return transient(r) or r.startswith("panic") or "existence_error'('procedure','/'('c24" in r
+
+
+def run_with_retry(cases, batch=25):
+    """graph cases are sent in batches that share one load of the helper clauses; a case whose
+    lines timed out / panicked / lost their clauses (a panic discards the machine, so the later
+    lines of the batch are affected) is run again alone on a fresh machine, each of its queries
+    separately, before it is judged."""
+    graph = [c for c in cases if "nodes" in c]
+    other = [c for c in cases if "nodes" not in c]
+    batches = []
+    for i in range(0, len(graph), batch):
+        lines = [HELPER_LINE % ("b%d" % i), "Q\tc24u_b%d\t1\tuse_module(library(iso_ext))." % i]
+        for c in graph[i:i + batch]:
+            lines += [l for l in c["impl"] if not l.startswith("L\tc24h") and not l.startswith("Q\t%s_u" % c["id"])]
+        batches.append({"id": "batch%d" % i, "impl": lines})
+    models = [{"id": c["id"] + "_m", "model": c["model"]} for c in graph]
+    impl, model = diff.run_cases(batches + other + models, impl_env=IMPL_ENV)
+    flaky = [c for c in cases if any(needs_rerun(impl.get(core.line_id(l), "missing")) for l in c["impl"] if l.startswith("Q\t"))]
     retried = len(flaky)
-    # a case whose lines timed out / lost their machine / panicked is run again alone on a fresh
-    # machine before it is judged (a panic discards the machine, so later lines of the same worker
-    # may have been affected)
     for c in flaky[:400]:
         qs = [l for l in c["impl"] if l.startswith("Q\t") and not l.startswith("Q\t%s_u" % c["id"])]
         setup = [l for l in c["impl"] if l not in qs]
@@ -572,8 +586,8 @@ def run(ctx):
         cases = [norm_case(c, "k%d" % i) for i, c in enumerate(diff.load_corpus("C24")) if "nodes" in c]
         cases += fixed_cases()
         if tier == "quick":
-            cases += gen_cases(rng, 500, "s", 4)
-            cases += gen_cases(rng, 700, "m", 8)
+            cases += gen_cases(rng, 250, "s", 4)
+            cases += gen_cases(rng, 350, "m", 8)
         else:
             cases += gen_cases(rng, 4000, "s", 4)
             cases += gen_cases(rng, 6000, "m", 8)
@@ -628,7 +642,7 @@ def run(ctx):
     return {
         "evaluations": len(cases) * 2 + len(specials),
         "distinct_nontrivial": len(distinct),
-        "rule": "12 fixed classic shapes + random term graphs (quick: 500 with <=4 and 700 with <=8 abstract nodes; thorough: 4000/6000 and 2000 with <=12): "
+        "rule": "12 fixed classic shapes + random term graphs (quick: 250 with <=4 and 350 with <=8 abstract nodes; thorough: 4000/6000 and 2000 with <=12): "
                 "nodes are variables, constants, f/g/h compounds of arity 1-3, list cells, partial strings (partial_string/3) and complete strings, children "
                 "drawn uniformly from all nodes (back edges, self loops, sharing); 15% forced finite DAGs, 15% ground; 45% of the small graphs are paired with a "
                 "differently shaped (duplicated / cross-linked / sometimes perturbed) presentation of the same rational trees as second root; built by body "
